@@ -28,7 +28,9 @@ RULE = ("session = login (FTPShell for every command, FTPAnonymousShell for the 
         "MKD, RMD, LIST, NLST, SIZE, MDTM, CWD, RNFR x RNTO (attack path on either side) with a path; paths = every "
         "'/'-join of <= 2 segments from a 17-symbol alphabet ('..', '.', empty, NUL, '~', backslash, %-escape, glob, "
         "sibling and in-root names), <= 3 segments from a 6-symbol core, each relative and absolute, plus hand-written "
-        "attack paths (deep '..' chains, real absolute path of the sibling, LIST flags).  Data commands run over a real "
+        "attack paths (deep '..' chains, real absolute path of the sibling, LIST flags), plus the same attack paths "
+        "respelt with characters NFKC folds to dots or separators (fullwidth full stop, one/two dot leader, fullwidth "
+        "solidus; whole, first-only and mixed with ASCII) sent as UTF-8 to a protocol whose wire encoding is UTF-8.  Data commands run over a real "
         "DTP set up through PASV with an injected listenFactory.  non-trivial = a session whose path contains '..', NUL, "
         "an empty/odd segment or names the sibling")
 BOUNDS = {"quick": "1040 paths (17 + 17^2 + 6^3 segment joins x {relative, absolute}, 55 hand-written, 12 benign); "
@@ -40,11 +42,13 @@ ASSUMPTIONS = [
     "visible through observation 3 only and are recorded as an outcome, not judged (the statement lists open, list, "
     "create, rename, delete)",
     "events raised from importlib / linecache / tokenize frames (lazy imports, traceback rendering) are not the server's",
+    "the compatibility-spelling sessions set the protocol's _encoding to utf-8 (latin-1, the default, cannot carry "
+    "those code points); every other session uses the default",
     "no symbolic links in the scratch tree ('symbolic links aside')",
     "the reactor is a task.Clock stand-in installed before twisted.protocols.ftp is imported; only zero-delay calls run",
 ]
-MIN = {"quick": {"evaluations": 33000, "nontrivial": 28000, "outcomes": 16},
-       "thorough": {"evaluations": 380000, "nontrivial": 360000, "outcomes": 16}}
+MIN = {"quick": {"evaluations": 48000, "nontrivial": 43000, "outcomes": 16},
+       "thorough": {"evaluations": 400000, "nontrivial": 380000, "outcomes": 16}}
 
 SIB = "{SIB}"      # placeholder: real absolute path of the sibling directory
 ROOT = "{ROOT}"    # placeholder: real absolute path of the root
@@ -64,6 +68,41 @@ HAND = [
     "a b/../../root-sib/x", " ../root-sib/x", "../root-sib/x ", "....//root-sib/x", "..././root-sib/x",
 ]
 BENIGN = ["f", "a/f", "a/b/g", "d", "a", "new", "a/new", "root-sib/x", "/a/b", "", "/", "."]
+# Compatibility spellings that Unicode normalisation (NFKC) folds to dots / separators.  The default latin-1
+# decoding of the command channel cannot produce these code points, so these sessions run with the protocol's
+# wire encoding set to UTF-8 (a server configured for RFC 2640 path names).
+FW2, FW1, ODL2, TDL, FWSOL = "\uff0e\uff0e", "\uff0e", "\u2024\u2024", "\u2025", "\uff0f"
+DOT_SPELLINGS = [FW2, ODL2, TDL, FW1 + ".", "." + FW1, FW1]
+
+
+def uni_paths():
+    out, seen = [], set()
+
+    def add(p):
+        if p not in seen and p.isascii() is False:
+            seen.add(p)
+            out.append(p)
+    for p in HAND + ["..", "../", "/..", "a/..", "a/../.."]:
+        if ".." not in p or "\0" in p:
+            continue
+        for sp in DOT_SPELLINGS:
+            add(p.replace("..", sp))                 # every '..' respelt
+            if sp in (FW2, TDL):
+                add(p.replace("..", sp, 1))          # only the first one
+        add(p.replace("/", FWSOL))                   # ascii dots, fullwidth solidus inside one segment
+        add(p.replace("..", FW2).replace("/", FWSOL))
+        if "/" in p:
+            head, tail = p.split("/", 1)
+            add(head + FWSOL + tail)                 # only the first separator respelt
+            add(head + "/" + tail.replace("/", FWSOL))
+    for sp in DOT_SPELLINGS + [".." + FWSOL + "root-sib", FW2 + FWSOL + "root-sib", "a" + FWSOL + ".." + FWSOL + ".."]:
+        for segs in ((sp,), (sp, "root-sib"), (sp, "root-sib", "x"), (sp, sp, "root-sib", "x"), ("a", sp, sp, "root-sib", "x"),
+                     (sp, "x"), (sp, sp), ("a", sp), (sp, "new"), (sp, "root-sib", "new")):
+            add("/".join(segs))
+            add("/" + "/".join(segs))
+    return out
+
+
 READ_CMDS = ["RETR", "LIST", "NLST", "SIZE", "MDTM", "CWD"]
 WRITE_CMDS = ["STOR", "DELE", "MKD", "RMD", "RNFR-attack", "RNTO-attack"]
 PREFIXES = {
@@ -365,8 +404,12 @@ def run_session(spec):
     def subst(s):
         return s.replace(SIB, os.path.join(G.base, "root-sib")).replace(ROOT, root)
 
+    wire = spec.get("wire", "latin-1")
+    if wire != "latin-1":
+        proto._encoding = wire
+
     def send(line):
-        wrapper.dataReceived(line.encode("latin-1") + b"\r\n")
+        wrapper.dataReceived(line.encode(wire) + b"\r\n")
         drive()
 
     def data_phase():
@@ -469,7 +512,7 @@ def reply_class(control, cmd):
 
 
 def odd(path):
-    return ".." in path or "\0" in path or "//" in path or "root-sib" in path or SIB in path or \
+    return not path.isascii() or ".." in path or "\0" in path or "//" in path or "root-sib" in path or SIB in path or \
         any(c in path for c in "~\\%*") or path in ("", ".", "/") or path.startswith("-")
 
 
@@ -486,7 +529,7 @@ def evaluate(st, spec):
     if info["stat_leak"]:
         st.outcome("stat-of-outside-path-disclosed")
     for sig, detail in bad:
-        st.violation(sig, detail, {k: spec[k] for k in ("shell", "prefix", "pre", "cmd", "path")})
+        st.violation(sig, detail, {k: spec[k] for k in ("shell", "prefix", "pre", "cmd", "path", "wire")})
 
 
 def shards(tier, seed):
@@ -497,6 +540,10 @@ def shards(tier, seed):
             out.append(["full", pre, cmd, "all"])
     for cmd in READ_CMDS:
         out.append(["anon", "root", cmd, "all"])
+    for pre in ("root", "a", "a/b"):
+        for cmd in READ_CMDS + WRITE_CMDS:
+            out.append(["full", pre, cmd, "uni"])
+    out.append(["anon", "root", "read", "uni"])
     for pre in ("failing-cdup", "failing-sib", "a;failing-sib", "failing-abs") + (() if tier == "thorough" else ("a;cdup",)):
         out.append(["full", pre, "*", "hand"])
     return out
@@ -507,12 +554,13 @@ def run_shard(shard, tier, seed):
     st = Stats()
     setup()
     try:
-        cmds = (READ_CMDS + WRITE_CMDS) if cmd == "*" else [cmd]
-        plist = paths(tier) if which == "all" else HAND + BENIGN + ["..", "../.."]
+        cmds = (READ_CMDS + WRITE_CMDS) if cmd == "*" else (READ_CMDS if cmd == "read" else [cmd])
+        plist = paths(tier) if which == "all" else (uni_paths() if which == "uni" else HAND + BENIGN + ["..", "../.."])
+        wire = "utf-8" if which == "uni" else "latin-1"
         spec = None
         for c in cmds:
             for path in plist:
-                spec = {"shell": shell, "prefix": pre, "pre": PREFIXES[pre], "cmd": c, "path": path}
+                spec = {"shell": shell, "prefix": pre, "pre": PREFIXES[pre], "cmd": c, "path": path, "wire": wire}
                 evaluate(st, spec)
         if spec:
             st.sample({k: spec[k] for k in ("shell", "prefix", "cmd", "path")})
